@@ -27,7 +27,7 @@ class Mod:
     def __init__(self, path, pymod):
         self.tree=ast.parse(open(path).read()); self.py=pymod
         self.funcs={}; self.classes={}
-        self.globs={k:getattr(pymod,k) for k in dir(pymod) if k.isupper() and not k.startswith("_") and isinstance(getattr(pymod,k),(str,int,list,tuple,dict))}
+        self.globs={k:getattr(pymod,k) for k in dir(pymod) if k.strip("_").isupper() and not k.startswith("__") and isinstance(getattr(pymod,k),(str,int,list,tuple,dict))}
         self.used_globs=[]; self.rx_consts={}
         for n in self.tree.body:
             if isinstance(n,ast.FunctionDef): self.funcs[n.name]=n
